@@ -468,6 +468,12 @@ func c11(r *core.Report) {
 	r.Rule("C11-RESP-FENCE", "mbapp writes the asker's response buffer only under the ask's once, and a cancelled Ask passes through that once before returning", 2)
 	ruleRespFence(r, "C11-RESP-FENCE")
 
+	// ---- C11-HUB-FENCE (shared with C13-COMMIT): vswarm, p2pmux and multiswarm hand the asker's own response
+	// buffer to the remote handler through AskHub.Deliver; once a server took the request, Deliver returns only
+	// after the handler finished, or the abandoned handler's late write lands in a later Ask's answer
+	r.Rule("C11-HUB-FENCE", "AskHub.Deliver: once a server took the request every path waits for the handler's completion signal before returning", 4)
+	ruleCommit(r, h, "C11-HUB-FENCE", "AskHub.Deliver")
+
 	// ---- C11-OFFSET-ORDER-FREE (shared with C10): a multi-part reply is the handler's bytes only if each
 	// part is placed independently of the order of arrival
 	r.Rule("C11-OFFSET-ORDER-FREE", "the position a fragment of a request/reply is copied to depends on that fragment and on fields fixed at construction only", 1)
